@@ -290,10 +290,12 @@ type MemConn struct {
 	// WriteErr, if set, is returned by WriteTo instead of emitting.
 	WriteErr error
 	// stall, if set, makes one WriteTo block the way a back-pressured socket does (ext_stall.go).
-	stall      atomic.Pointer[Stall]
-	wdlChanged chan struct{}
-	failN      int
-	failErr    error
+	stall       atomic.Pointer[Stall]
+	wdlChanged  chan struct{}
+	lateFailN   int
+	lateFailErr error
+	failN       int
+	failErr     error
 }
 
 var errTimeout = &timeoutError{}
@@ -370,6 +372,9 @@ func (c *MemConn) WriteTo(p []byte, addr net.Addr) (int, error) {
 		(*hp)(d)
 	} else if h := c.w.OnEmit; h != nil {
 		h(d)
+	}
+	if lerr := c.takeLateFail(); lerr != nil {
+		return len(p), lerr
 	}
 	return len(p), nil
 }
